@@ -223,6 +223,12 @@ def handleE2E : Handler := fun s =>
         -- excluded point: refused; the model refuses too
         { corr := some (fin.isSome && mCmap.isNone), oracle := some true, nontrivial := nt, tags,
           cls := if fin.isSome && mCmap.isNone then "" else "model-accepts-cp-conflict" }
+      else if containsSub m "Fragment(" && containsSub m "is not available" then
+        -- a glyph of the final order was never compiled. The model of the job set (`allCompiled`) predicts it.
+        let mAll := fin.map (allCompiled { glyphs := gs, prelim, preferSimple })
+        let shadow := gs.any fun g => !g.exported && containsSub m ("Fragment(" ++ g.name ++ ")")
+        { corr := some (mAll == some false), oracle := some false, nontrivial := nt, tags,
+          cls := if shadow then "made-glyph-shadows-nonexport-glyph" else "glyph-not-compiled", detail := m }
       else
         { corr := none, oracle := some false, nontrivial := nt, tags, cls := "valid-source-rejected", detail := m }
     | some (.atom "ok" :: _) =>
@@ -236,7 +242,8 @@ def handleE2E : Handler := fun s =>
           match fin, mCmap with
           | some fo, some cm =>
             let mPost := postNames rename fo.order
-            if mPost != fnames then (false, s!"post: model={mPost} font={fnames}")
+            if !allCompiled { glyphs := gs, prelim, preferSimple } fo then (false, "model: a final glyph is not compiled, implementation builds")
+            else if mPost != fnames then (false, s!"post: model={mPost} font={fnames}")
             else if !samePairs (dedupPairs (cm.filter (·.2 != 0))) (f.cmap.filter (·.2 != 0)) then
               (false, s!"cmap: model={cm} font={f.cmap}")
             else
